@@ -18,8 +18,18 @@ model of `Deserialize` on a storage-less trie (`New(nil, nil)`).
 
 Hypotheses: hashes have 32 bytes; sizes/weights below 2^64 (`PTOK`) for every spec tree an operation is applied to; the
 exported byte strings are shorter than 2^64 bytes (`hsz`; needed by the CBOR envelope round trip). No collision-freeness
-hypothesis is needed for C12. Both collection strategies of GetPath are the one marking function of the model (see
-notes/C12.md).
+hypothesis is needed for C12.
+
+GetPath has two collection strategies: the keys one after the other from the root (`markAll`), or — for more than
+`pathParallelThreshold` keys (a constant extracted from the Go source into Verif.Gen.Constants) on a branch root — one
+walk per key started at the root's child, the root marked separately (`markParallel`; Go runs these walks in goroutines,
+the model in list order). Both are modelled, `getPath` chooses like the Go code, and
+
+  mark_parallel_eq_sequential   on a branch root the two strategies report the same error and, when marking succeeds, leave
+                  the same marked trie
+  getPath_strategy_irrelevant   so `getPath` returns what the purely sequential `getPathSeq` returns — always the same
+                  result, and on success the same trie state — whatever the threshold is: `export_import` and `C12`
+                  are statements about `getPath` itself and hold for every number of keys
 -/
 import Verif.Lemmas.WmptExport
 import Verif.Model.WmptHistory
@@ -51,6 +61,33 @@ theorem import_checks_root (H : Bytes → Bytes) (ps : List PairD) (r : WN) (h :
            simp only [Res.ok.injEq, Option.some.injEq] at h
            subst h
            exact (Decidable.not_not.mp hne).symm)
+
+/-- the two collection strategies of GetPath below a branch root: same error; on success (for at least one key — with no
+    key the parallel strategy, which GetPath never takes then, would still set the root's mark) the same marked trie -/
+theorem mark_parallel_eq_sequential (hasDb : Bool) (s : Store) (h : Bytes) (ch : Nib → WN) (w : Nat) (d tc : Bool)
+    (keys : List (List Nib)) :
+    (markParallel hasDb s (.routing h ch w d tc) keys).err = (markAll hasDb s (.routing h ch w d tc) keys).err ∧
+    ((markAll hasDb s (.routing h ch w d tc) keys).err = none → keys ≠ [] →
+      (markParallel hasDb s (.routing h ch w d tc) keys).node = (markAll hasDb s (.routing h ch w d tc) keys).node) :=
+  Verif.Wmpt.mark_parallel_eq_sequential hasDb s h ch w d tc keys
+
+/-- `getPath` (which picks the strategy by the extracted threshold) answers like the purely sequential `getPathSeq`:
+    the same result in every case; on success the same trie state; after a failure the two states differ at most in the
+    export marks left in the root -/
+theorem getPath_strategy_irrelevant (H : Bytes → Bytes) (t : WT) (keys : List (List Nib)) :
+    (getPath H t keys).2 = (getPathSeq H t keys).2 ∧
+    (∀ data, (getPathSeq H t keys).2 = .ok data → getPath H t keys = getPathSeq H t keys) ∧
+    (∀ n, { (getPath H t keys).1 with root := n } = { (getPathSeq H t keys).1 with root := n }) :=
+  Verif.Wmpt.getPath_strategy_irrelevant H t keys
+
+/-- the walks of the parallel strategy on different children of the root commute (the model runs them in list order, the
+    Go code concurrently): swapping two adjacent successful walks with different first nibbles changes nothing -/
+theorem parallel_walks_commute (hasDb : Bool) (s : Store) (ch : Nib → WN) (k1 k2 : Nib) (ks1 ks2 : List Nib)
+    (rest : List (List Nib)) (hne : k1 ≠ k2)
+    (h1 : (markToCollect hasDb s (fuelFor (k1 :: ks1) - 1) (ch k1) ks1).err = none)
+    (h2 : (markToCollect hasDb s (fuelFor (k2 :: ks2) - 1) (ch k2) ks2).err = none) :
+    markKids hasDb s ch ((k1 :: ks1) :: (k2 :: ks2) :: rest) = markKids hasDb s ch ((k2 :: ks2) :: (k1 :: ks1) :: rest) :=
+  markKids_comm hasDb s ch k1 k2 ks1 ks2 rest hne h1 h2
 
 /-- export / import: same root hash and weight, requested paths free of references, source intact -/
 theorem export_import (H : Bytes → Bytes) (hlen : ∀ x, (H x).length = 32) (t : WT) (ts : PT) (keys : List (List Nib))
